@@ -799,14 +799,45 @@ def rule_list_bitmaps(ctx, P, r, units=None):
                         hazard = True
     if not hazard:
         r.ok('convert_list_to_bitmap shifts in 64-bit arithmetic: whole-word consumers are safe', loc='include/erasurecode/erasurecode_helpers.h')
+    # the bitmap may be handed on to a helper as an argument: the helper's parameter is then a list bitmap too (its uses are
+    # examined there; passing it on is not a use of its value)
+    seeds = {}
     for name, fn in sorted(P.fns.items()):
+        if hazard and not (OUT_OF_SCOPE.search(fn.mod.src) or (units and fn.mod.src not in units)):
+            t0 = {i.res for i in fn.insts() if i.op == 'call' and i.callee.startswith('@convert_list_to_bitmap') and i.res}
+            if t0:
+                seeds[name] = t0
+    work = sorted(seeds)
+    done_sets = {}
+    order = []
+    while work:
+        name = work.pop(0)
+        fn = P.fns[name]
+        T = set(seeds[name])
+        ch_ = True
+        while ch_:
+            ch_ = False
+            for i in fn.insts():
+                if i.res and i.res not in T:
+                    ops = i.ops if i.op != 'phi' else [v for v, _ in i.incoming]
+                    if i.op in ('or', 'phi', 'select', 'sext', 'zext', 'trunc') and any(o in T for o in ops):
+                        T.add(i.res); ch_ = True
+        done_sets[name] = T
+        if name not in order:
+            order.append(name)
+        for i in fn.insts():
+            if i.op == 'call' and i.callee in P.fns and not i.callee.startswith('@convert_list_to_bitmap') and P.fns[i.callee].order:
+                g_ = P.fns[i.callee]
+                for ai, o in enumerate(i.ops[:len(g_.params)]):
+                    if o in T and g_.params[ai][1] not in seeds.get(g_.name, set()):
+                        seeds.setdefault(g_.name, set()).add(g_.params[ai][1])
+                        if g_.name not in work:
+                            work.append(g_.name)
+    for name in order:
+        fn = P.fns[name]
         if not hazard:
             break
-        if OUT_OF_SCOPE.search(fn.mod.src) or (units and fn.mod.src not in units):
-            continue
-        T = {i.res for i in fn.insts() if i.op == 'call' and i.callee.startswith('@convert_list_to_bitmap') and i.res}
-        if not T:
-            continue
+        T = done_sets[name]
         changed = True
         while changed:
             changed = False
@@ -840,6 +871,9 @@ def rule_list_bitmaps(ctx, P, r, units=None):
             ops = i.ops if i.op != 'phi' else [v for v, _ in i.incoming]
             if not any(o in T for o in ops) or i.res in T:
                 continue
+            if i.op == 'call' and i.callee in P.fns and P.fns[i.callee].order and not i.callee.startswith('@convert_list_to_bitmap') \
+                    and all(o not in T or (ai < len(P.fns[i.callee].params) and P.fns[i.callee].params[ai][1] in seeds.get(i.callee, ())) for ai, o in enumerate(i.ops)):
+                continue                              # handed on: examined in the callee
             n += 1
             inst = f'{name}: use of the list bitmap at line {i.line}'
             if i.op == 'and' and any(single_bit(fn, o) for o in i.ops if o not in T):
